@@ -1,5 +1,5 @@
-CONSTANTS RingLen = 2 Depth = 5
-  Types = {16, 17, 19, 20, 48, 49, 52, 53, 64, 65, 80, 81, 34, 1}
+CONSTANTS RingLen = 2 Depth = 4
+  Types = {16, 17, 19, 20, 48, 49, 52, 53, 64, 65, 80, 34}
   PtsVals = {0, 10, 20}
 SPECIFICATION Spec
 VIEW View
